@@ -1,0 +1,7 @@
+//go:build !verif
+
+// Package verifhook lets the verification harness observe the individual
+// durable writes of a commit. It is a no-op unless built with -tags verif.
+package verifhook
+
+func Durable(string) {}
